@@ -679,6 +679,15 @@ fn constructors(run: &Run) {
                 run.tr();
                 run.ok();
                 run.nontrivial(1);
+                // a descending grid is the mirror image of the ascending one, element by element (negation is exact)
+                if let (Ok(up), Ok(down)) = (guard(|| linalg::arange(st, stop, step).v.clone()), guard(|| linalg::arange(-st, -stop, -step).v.clone())) {
+                    run.tr();
+                    if up.len() != down.len() || up.iter().zip(&down).any(|(a, b)| *a != -*b) {
+                        run.violate("constructor/arange/descending-not-mirror-of-ascending", || format!("arange({}, {}, {}) = {:?} but arange({}, {}, {}) = {:?}", st, stop, step, up, -st, -stop, -step, down));
+                    } else {
+                        run.regime("arange-descending-mirrors-ascending");
+                    }
+                }
                 match guard(|| linalg::arange(st, stop, step).v.clone()) {
                     Ok(v) => {
                         let n = v.len();
